@@ -27,6 +27,21 @@ void h_block(void) {
   VERIF_REACH();
 }
 
+/* the same contract on a block that is NOT 4-byte aligned (a message hashed from the middle of a buffer): -DC10_PB_UNALIGNED */
+void h_block_unaligned(void) {
+  C10_GHOSTS_FROM_INPUTS;
+  uint32_t in_H[8]; uint8_t in_mis;
+  g_H[0] = in_H[0]; g_H[1] = in_H[1]; g_H[2] = in_H[2]; g_H[3] = in_H[3];
+  g_H[4] = in_H[4]; g_H[5] = in_H[5]; g_H[6] = in_H[6]; g_H[7] = in_H[7];
+  g_nblk = in_nblk;
+  __CPROVER_assume(in_mis >= 1 && in_mis <= 3);
+  C10_T* self = malloc(sizeof(C10_T));
+  uint8_t* base = malloc(64 + 3);
+  __CPROVER_assume(self != 0 && base != 0);
+  C10_PB(self, base + in_mis);
+  VERIF_REACH();
+}
+
 /* constructor: symbolic message length, ghost position g_k anywhere in the padded message */
 void h_ctor(void) {
   C10_GHOSTS_FROM_INPUTS;
